@@ -443,6 +443,7 @@ def _run_periodic2(case, lat):
             def cb():
                 T = tasks[tid]
                 t = vm.loop._time          # base virtual time of this loop instant
+                t_read = vm.loop.time()    # what asyncio compares deadlines with: base + latency burned in this instant
                 lat.burn(vm.loop, 0.001)   # this callback "takes" 1 ms
                 obs["periodic_ticks"] += 1
                 clauses["periodic_tick"] += 1
@@ -452,8 +453,12 @@ def _run_periodic2(case, lat):
                 T["n"] += 1
                 obs["max_tick_index"] = max(obs["max_tick_index"], T["n"])
                 exp = T["t0"] + T["n"] * T["interval"]
-                if abs(t - exp) > TOL:
-                    V("periodic_tick", "C13:periodic_tick_at_wrong_time", tid=tid, k=T["n"], t=t, expected=exp)
+                # late: even the base time of this loop instant is past the nominal deadline (drift);
+                # early: the clock asyncio reads has not reached it.  A deadline that falls inside the latency other
+                # callbacks of the same instant have burned is due in this instant (injected latency, not MPF's doing)
+                if t - exp > TOL or exp - t_read > TOL:
+                    V("periodic_tick", "C13:periodic_tick_at_wrong_time", tid=tid, k=T["n"], t=t, t_read=t_read,
+                      expected=exp)
                 if T["cancel_after"] is not None and T["n"] >= T["cancel_after"]:
                     T["cancelled"] = True
                     obs["cancel_ops"] += 1
